@@ -38,7 +38,7 @@ META["C13"] = dict(
           "refuses operations until migration finished, is idempotent across restarts, and announces readiness once with the outcome."),
     design_ref="DESIGN.md §2 C13",
     note="Trusts internal/cborx for the v2 layout and the record->view rendering used as the expected value.",
-    technique="runtime monitoring: differential oracle (independently encoded v2 records vs accessors after real migration), byte-diff of store across restarts",
+    technique="runtime monitoring: differential oracle (independently encoded v2 records vs accessors after real migration AND vs the stored v3 record raw field by raw field), byte-diff of store across restarts",
 )
 
 META["C03"] = dict(
@@ -46,7 +46,7 @@ META["C03"] = dict(
           "exhaustive single-step relation over injected (status, flags, role) x operation. Histories are sampled; the single-step product is complete for the 15 real statuses."),
     design_ref="DESIGN.md §2 C03",
     note="Trusts the event classification table and the snapshot stream as observation; manager-level two-party variant is part of C03 parts when present.",
-    technique="runtime monitoring: online trace-predicate checker over recorded (event, before, after) steps; state injection for the one-step relation",
+    technique="runtime monitoring: online trace-predicate checker over recorded (event, before, after) steps; state injection for the one-step relation; manager-level hold of a finalizing responder under validation updates, voucher results and repeated completion reports",
 )
 
 META["C02"] = dict(
@@ -63,7 +63,7 @@ META["C14"] = dict(
           "(no wall-clock tolerance) and interval-overlap detection on the recording monitor API. Sampled schedules, not all."),
     design_ref="DESIGN.md §2 C14",
     note="Trusts testing/synctest's virtual clock and the recording monitor-API double; timings are decided on virtual time only.",
-    technique="runtime monitoring on a virtual clock: interval-overlap, bounded-count, exactly-once and deadline oracles over the recorded monitor API call log",
+    technique="runtime monitoring on a virtual clock: interval-overlap, bounded-count, exactly-once and deadline oracles over the recorded monitor API call log (failures plain and context-wrapping); the monitor inside the real manager with faults on reconnect / restart send / transport re-open and acceptance processed during the open call",
 )
 
 META["C15"] = dict(
@@ -71,7 +71,7 @@ META["C15"] = dict(
           "configurations, cancellation instants on a virtual clock, write faults and inbound byte streams; the real network layer runs over libp2p mocknet."),
     design_ref="DESIGN.md §2 C15",
     note="Trusts the wrapping host/stream doubles and the recording Receiver; mocknet instead of real sockets.",
-    technique="runtime monitoring with fault injection at the libp2p host/stream boundary (enumerated open-failure patterns, write faults, cancellation on a virtual clock)",
+    technique="runtime monitoring with fault injection at the libp2p host/stream boundary (enumerated open-failure patterns, write faults, short open timeouts, cancellation on a virtual clock), second and back-to-back sends through the same network object, inbound streams with malformed tails incl. body-less envelopes",
 )
 
 META["C18"] = dict(
@@ -103,7 +103,7 @@ META["C16"] = dict(
           "structural invariants (no route/tracking/store after cleanup) are read through the verif hook snapshot."),
     design_ref="DESIGN.md §2 C16",
     note="Trusts the graphsync double (FakeGS) and the recording EventsHandler; callbacks are fired sequentially here, concurrently in the C20 stress.",
-    technique="runtime monitoring: expected-multiset oracle per fired callback over the recorded EventsHandler log + hook-based structural invariants",
+    technique="runtime monitoring: expected-multiset oracle per fired callback over the recorded EventsHandler log + hook-based structural invariants; abandoned opens followed by a retry, cleanup completing inside a hook, fan-out of one graphsync event over several channels with cleanup from the handler",
 )
 
 META["C08"] = dict(
@@ -111,7 +111,7 @@ META["C08"] = dict(
           "including exact-boundary sizes and re-validation limits at progress-1/progress/progress+1, at the channels API and through the real manager."),
     design_ref="DESIGN.md §2 C08",
     note="Trusts the running-sum model (10 lines) and the recording transport/network doubles.",
-    technique="runtime monitoring: reference-model oracle on the return value of every block report + recorded transport/network calls for re-validation outcomes",
+    technique="runtime monitoring: reference-model oracle on the return value of every block report + recorded transport/network calls for re-validation outcomes; a limit-changing update overlapping the first report of a lifetime (slow state read injected at the datastore boundary), 480 schedules per quick run",
 )
 
 META["C11"] = dict(
@@ -119,7 +119,7 @@ META["C11"] = dict(
           "action, plus the exhaustive single-step table for the four pause events over all statuses/flags/roles."),
     design_ref="DESIGN.md §2 C11",
     note="Transport carriage between the managers is emulated by the harness bridge (mgr_test.go) following gsReqRecdHook/gsIncomingResponseHook/gsRequestUpdatedHook; real graphsync in C01.",
-    technique="runtime monitoring: reference-model (2 bits per side) oracle over both managers' states + recorded transport/network calls",
+    technique="runtime monitoring: reference-model (2 bits per side) oracle over both managers' states + recorded transport/network calls, voucher traffic between pause actions, derived-flag invariants on every injected state, pauses issued while the acceptance is held back by the network",
 )
 
 META["C09"] = dict(
@@ -135,7 +135,7 @@ META["C10"] = dict(
           "re-issued messages, graphsync call order by global stamps, extension payloads, all against the real manager and real transport."),
     design_ref="DESIGN.md §2 C10",
     note="Trusts the graphsync double's call stamps and the recording network/validator/datastore doubles.",
-    technique="runtime monitoring: relational before/after oracle + ordering oracle over the recorded graphsync/network call log of the real transport",
+    technique="runtime monitoring: relational before/after oracle + ordering oracle over the recorded graphsync/network call log of the real transport; blocks arriving during restart validation; overlapping restarts on the real clock with late cancel confirmations (exactly the newest request stays live)",
 )
 
 META["C17"] = dict(
@@ -143,7 +143,7 @@ META["C17"] = dict(
           "subscribers, with subscription changes from other goroutines and per-transfer subscribers."),
     design_ref="DESIGN.md §2 C17",
     note="Trusts the recording datastore (write log), the independent record decoder (internal/cborx + recordToView) and the subscriber recorder.",
-    technique="runtime monitoring: offline comparison of recorded subscriber call logs against the datastore write log (exactly-once, order, state agreement)",
+    technique="runtime monitoring: offline comparison of recorded subscriber call logs against the datastore write log (exactly-once, order, state agreement), with unsubscribes landing during a delivery and inbound channels reusing a transfer id",
 )
 
 META["C19"] = dict(
@@ -159,7 +159,7 @@ META["C01"] = dict(
           "whenever the initiator reported Completed, the responder, the receiver's store and the byte totals agreed with an independent walk of the source DAG."),
     design_ref="DESIGN.md §2 C01",
     note="Trusts the independent DAG walk and the blockstore comparison; the premise (initiator Completed after acceptance) is checked, not assumed.",
-    technique="runtime monitoring: end-to-end oracle at quiescence (virtual time) over the real two-node stack with injected link cuts, limits, pauses and finalization",
+    technique="runtime monitoring: end-to-end oracle at quiescence (virtual time) over the real two-node stack with injected link cuts, limits, pauses, finalization, slow receiver disk and early restarts; plus two real managers back to back with a late / two-round finalization decision racing the completion message",
 )
 
 META["C20"] = dict(
@@ -167,5 +167,5 @@ META["C20"] = dict(
           "goroutine dumps; the evidence lists operations per kind, re-entrant calls and raw/de-duplicated race reports. Absence of reports covers the executed interleavings only."),
     design_ref="DESIGN.md §2 C20",
     note="Go race detector (happens-before based, no false positives, misses races the schedules do not exercise); deadlock confirmation needs two identical parked dumps.",
-    technique="Go race detector over multi-goroutine stress workloads + goroutine-dump deadlock detector (real clock) + quiescence-based hang detection (virtual clock) for the end-to-end part",
+    technique="Go race detector over multi-goroutine stress workloads + goroutine-dump deadlock and livelock detector (real clock): stress on manager / transport (graphsync double with go-graphsync's two manager loops) / monitor / real two-node stack, and nine deterministic hazard placements found by earlier hangs and seeded changes",
 )
